@@ -90,6 +90,40 @@ fn small_boards(cx: &mut Cx, mon: &mut dyn BoardMonitor) {
     }
 }
 
+/// A seeded sample of 4-man positions (two kings + two further pieces of any colours) through the
+/// builder: pins against the edge, mutual attacks, stalemates and mates are dense here.
+fn four_man_sample(cx: &mut Cx, mon: &mut dyn BoardMonitor, n: u64) {
+    use cozy_chess::{Color, Piece};
+    use refmodel::*;
+    let kinds = [Piece::Pawn, Piece::Knight, Piece::Bishop, Piece::Rook, Piece::Queen];
+    for _ in 0..n {
+        let mut p = RPos::empty();
+        let mut sqs: Vec<usize> = Vec::new();
+        while sqs.len() < 4 {
+            let s = cx.rng.usize(64);
+            if !sqs.contains(&s) {
+                sqs.push(s);
+            }
+        }
+        p.sq[sqs[0]] = Some((Color::White, Piece::King));
+        p.sq[sqs[1]] = Some((Color::Black, Piece::King));
+        for &s in &sqs[2..] {
+            let c = if cx.rng.chance(1, 2) { Color::White } else { Color::Black };
+            p.sq[s] = Some((c, *cx.rng.pick(&kinds)));
+        }
+        p.stm = if cx.rng.chance(1, 2) { Color::White } else { Color::Black };
+        p.half = *cx.rng.pick(&[0u32, 0, 50, 99, 100]);
+        cx.count("four-man-builder-states");
+        if let Ok(Ok(b)) = build(&p) {
+            cx.count("four-man-boards-accepted");
+            let m = RPos::observe(&b);
+            let hist = Hist { route: "builder", root: fen::write_fen(&m, true), moves: vec![] };
+            let ev = Ev { kind: EvKind::Root, prev: None, mv: None, hist: &hist, source: "four-man-sample" };
+            mon.on_board(cx, &b, &m, &ev);
+        }
+    }
+}
+
 fn run_boards<M: BoardMonitor>(cfg: &Cfg, spec: BoardRun, make: impl Fn() -> M + Sync, extra: impl Fn(&mut Cx, &mut M) + Sync) -> Result<Outcome, String> {
     let corpus = Corpus::load();
     let prop: &'static str = Box::leak(cfg.property.clone().into_boxed_str());
@@ -101,6 +135,8 @@ fn run_boards<M: BoardMonitor>(cfg: &Cfg, spec: BoardRun, make: impl Fn() -> M +
         drv.run(cx, &mut mon, budget);
         if spec.small && cx.is_thorough() && !cx.miri {
             small_boards(cx, &mut mon);
+            let n = cx.budget(0, 8_000_000);
+            four_man_sample(cx, &mut mon, n);
         }
         if !cx.miri {
             let (qa, qs, qn, ta, ts, tn) = spec.trees;
